@@ -357,6 +357,8 @@ def main(tier):
     stats = {'states': 0, 'transitions': 0}
     summary = {}
     traces_for_tlc = []
+    import time as _time
+    marks = [('start', _time.time())]
     a_jobs, a_meta = [], []
     cases = []
     for name in SCENARIOS:
@@ -381,6 +383,7 @@ def main(tier):
             for cooked in (False, True):
                 cases.append({'meta': (name, n, cooked, sorted(watch), solo),
                               'case': {'n': n, 'cooked': cooked, 'prog': progs, 'maxsw': (2 if quick else 3) if n == 2 else (1 if quick else 2)}})
+    marks.append(('prepass', _time.time()))
     # --- TLC on DTConc: all interleavings
     cfg = ('SPECIFICATION Spec\nINVARIANT Published\nINVARIANT LockDiscipline\nINVARIANT Export\nCONSTRAINT PreemptionBound\n')
     # the interleavings are streamed: all counterexamples of the machine (up to 2000 per case) and a uniform sample of the
@@ -421,6 +424,7 @@ def main(tier):
                 a_meta.append((tid, is_cex))
     keep_cex.clear()
     keep_rest.clear()
+    marks.append(('tlc_dtconc', _time.time()))
     drift_a = 0
     drift_samples, rejected_samples = [], []
     for meta, ajob, r in zip(a_meta, a_jobs, common.pool_map(_replay_access, a_jobs, chunk=40, per_case=120)):
@@ -442,6 +446,7 @@ def main(tier):
                          'cls': 'deadlock' if r['bad'] == 'deadlock' else 'wrong-result'})
         else:
             V.count('schedules_conform')
+    marks.append(('access_replay', _time.time()))
     # --- stage B: line granularity
     b_jobs = []
     for name in SCENARIOS:
@@ -477,6 +482,7 @@ def main(tier):
         solo3 = solo_results(name, 3)
         for _ in range(20 if quick else 800):
             b_jobs.append((name, 3, rng.random() < 0.5, 'pct', (rng.randrange(10 ** 9), rng.randint(1, 5), 3000), watch, solo3))
+    marks.append(('line_prepare', _time.time()))
     for job, r in zip(b_jobs, common.pool_map(_line_run, b_jobs, chunk=8, per_case=180)):
         if '_crash' in r:
             common.machinery_failure('harness crash: %s' % repr(r)[:1500])
@@ -560,7 +566,9 @@ def main(tier):
         summary[name]['writes_seen_by_hooks'] = len(hooks_saw)
         if len(changes) > len(hooks_saw):
             unseen[name] = len(changes) - len(hooks_saw)
+    marks.append(('line_runs_and_validation', _time.time()))
     cov = {'states': stats['states'], 'transitions': stats['transitions'],
+           'stage_wall_s': {marks[i][0]: round(marks[i][1] - marks[i - 1][1], 1) for i in range(1, len(marks))},
            'traces_validated_against_impl': V.counters.get('schedules_conform', 0) + accepted,
            'schedules_from_TLC_replayed': V.counters.get('schedules_replayed_access', 0),
            'machine_counterexamples_replayed': model_cex, 'replays_with_drift': drift_a,
